@@ -280,10 +280,10 @@ def dist_cases(draw):
 
 def run(ctx):
     q = ctx.tier == "quick"
-    run_hypothesis(ctx, bc.leaf_cases(inv=False), oracle, 20 if q else 500, "C14-leaves")
-    run_hypothesis(ctx, bc.tree_cases(3, 7, inv=False) if q else bc.tree_cases(4, 12, inv=False), oracle, 6 if q else 150,
+    run_hypothesis(ctx, bc.leaf_cases(inv=False), oracle, 20 if q else 200, "C14-leaves")
+    run_hypothesis(ctx, bc.tree_cases(3, 7, inv=False) if q else bc.tree_cases(4, 12, inv=False), oracle, 6 if q else 60,
                    "C14-trees")
-    run_hypothesis(ctx, bc.flow_cases(), oracle, 2 if q else 50, "C14-flows")
-    run_hypothesis(ctx, dist_cases(), oracle, 5 if q else 120, "C14-dists")
+    run_hypothesis(ctx, bc.flow_cases(), oracle, 2 if q else 20, "C14-flows")
+    run_hypothesis(ctx, dist_cases(), oracle, 5 if q else 50, "C14-dists")
     # models as returned by fit_to_data(return_best=True): what users actually jit, vmap and serialise
-    run_hypothesis(ctx, dist_cases().map(lambda c: dict(c, trained=True)), oracle, 4 if q else 60, "C14-trained-dists")
+    run_hypothesis(ctx, dist_cases().map(lambda c: dict(c, trained=True)), oracle, 4 if q else 25, "C14-trained-dists")
